@@ -364,7 +364,7 @@ PLAN['C02'] = mk_e2(
     GEN_FUNCS,
     'Bounded symbolic verification of generated deserializers: for each corpus schema and each enumerated instance shape the solver shows valid(S, v) => T_S::deserialize(v) is Ok for all leaf values.')
 PLAN['C03'] = mk_e2(
-    'C03', lambda tier, rng: e2_select('C03', tier, rng, r'_rt_(pt|defaults|withenum|triple|pair|nullable_obj|ints)_p$|_rt_(pt|defaults)_p0$|_in_|_id_\w+$', 5),
+    'C03', lambda tier, rng: e2_select('C03', tier, rng, r'_rt_(pt|defaults|withenum|triple|pair|nullable_obj|ints|renamed|nulldef|grid_bool|grid_int|grid_str)_p$|_rt_(pt|defaults|renamed|nulldef|grid_str)_p0$|_in_|_id_\w+$', 5),
     'bounded symbolic execution + SAT (Kani/CBMC) of generated Deserialize -> Serialize -> Deserialize over symbolic valid instances',
     'bounded symbolic verification (Kani/CBMC) of the round trip through generated code for a stated corpus: declared members are kept with equal values, only null/empty optional members are dropped, only schema defaults are added, and serializing the defaults-filled instance again reproduces the same document',
     GEN_FUNCS,
@@ -384,7 +384,7 @@ PLAN['C14'] = mk_e2(
     'Bounded symbolic two-program equivalence: the same symbolic instance is fed to the type generated under default settings and under another setting; accept/reject and the serialized document must agree.',
     extra_outside=['replace / convert settings (the affected type changes by design)', 'all syntactic obligations of C14'])
 PLAN['C18'] = mk_e2(
-    'C18', lambda tier, rng: e2_select('C18', tier, rng, r'_bd_\w+_(p|p0|m0|m1|m2)$', 2),
+    'C18', lambda tier, rng: e2_select('C18', tier, rng, r'_bd_\w+_(p|p0)$|_bd_(pt_b|defaults_b)_(m0|m1|m2)$', 3),
     'bounded symbolic execution + SAT (Kani/CBMC) of the generated builder module: setter subsets x symbolic values',
     'bounded symbolic verification (Kani/CBMC) of the generated builder for the corpus structs: for each enumerated subset of setters called and all values, try_into succeeds iff every property without default is set and every supplied value converts; the built value equals deserializing an object with the same members; struct -> builder -> struct is the identity. The text of the error message is outside (formatting is stubbed)',
     GEN_FUNCS,
@@ -402,7 +402,7 @@ def c06_all(tier, rng):
     u = c10_units(tier, rng)
     if tier != 'thorough':
         u = u[:1] + u[2:4]       # quick: no-format + two formats (the full set is C10's quick tier)
-    u += e2_select('C06', tier, rng, r'_rt_defaults_(p0|p)$|_bd_defaults_b_(p0|m0)$', 8)
+    u += e2_select('C06', tier, rng, r'_rt_(defaults|nulldef|renamed|grid_int)_(p0|p)$|_bd_(defaults_b|nulldef_b|grid_str_b)_(p0|m0)$', 6)
     return u
 
 
